@@ -26,6 +26,9 @@ RULE = ("random histories (length <= 15, thorough <= 25) per object: FunctionSig
         "fractions - 0.1, 0.3, 0.7, 1/3, 1e-9, 0.7e-9 and the Askaryan/noise grids - also buffers on and one ulp next to "
         "k*dt, decimal literals, accumulated sums, and values for which fl(b/dt) is an integer while b % dt != 0), "
         "resample, with_times, + (with function-backed, sampled and empty signals, both operand orders), copy, *, "
+        "several live handles (a sum a+b / b+a of function-backed or thermal-noise signals, sums of sums, copy() and "
+        "with_times() of the sum, a + sampled): everything is read, one handle is mutated by filter_frequencies / "
+        "set_buffers / shift / *=, and all other handles must equal their earlier values and never-mutated twins, "
         "*= and /= by 2, -0.5, 3, 0.7 checked against the values read before the scaling, set_buffers calls that are "
         "rejected after the leading part was written, "
         "in-place edit of `times` handed back as the same object (times += d; t = times; t += d; times = t); "
@@ -392,6 +395,144 @@ SIGNAL_KINDS = ["FunctionSignal", "FunctionSignal", "FullThermalNoise", "FFTTher
                 "AVZAskaryanSignal", "ARZAskaryanSignal"]
 
 
+def sum_handles(ctx, tr, kind, filters, unit):
+    """Several live handles: a sum of function-backed signals, its operands, and copies / re-gridded versions
+    of the sum must not share mutable internals.  Everything is read first; then one handle is mutated and all
+    the OTHER handles are re-read: they must still report what they reported before, which is also what their
+    never-mutated twins (built before the mutation) report.  Returns the handle the history continues on."""
+    E = env()
+    np, S = E["np"], E["S"]
+    rng = ctx.run.rng
+    a = tr.obj
+
+    def track(obj, entry):
+        t = Tracked(obj, "FunctionSignal" if type(obj) is S.FunctionSignal else type(obj).__name__
+                    if type(obj).__name__ in SIGNAL_KINDS else "FunctionSignal", [entry])
+        t.keys.append(keyset(obj))
+        ctx.tracked.append(t)
+        return t
+
+    def rd(t):
+        with warnings.catch_warnings():
+            warnings.simplefilter("ignore")
+            v = np.array(t.obj.values)
+        if isinstance(t.obj, S.FunctionSignal):
+            t.tok("r:values")
+            t.read_before = True
+        return v
+
+    # the second operand: a plain function signal, another object of the same kind, or a scaled copy
+    q = rng.random()
+    if q < 0.5 or kind != "FunctionSignal":
+        f = rng.choice(E["funcs"]) if kind == "FunctionSignal" else (lambda t: 0 * np.asarray(t) + 1e-3)
+        b = S.FunctionSignal(a.times, f, a.value_type)
+        tb = track(b, "call:__init__")
+    elif q < 0.8:
+        b = make_signal(ctx.run, kind)
+        b.times = np.array(a.times)
+        tb = track(b, "call:__init__")
+        tb.tok("a:times")
+    else:
+        b = a * rng.choice([2.0, -0.5])
+        tr.tok("call:__mul__")
+        tb = track(b, "call:__mul__@new_signal")
+    if rng.random() < 0.4:
+        h, real = rng.choice(filters)
+        b.filter_frequencies(h, force_real=real)
+        tb.tok("call:filter_frequencies")
+    order = rng.random() < 0.5
+    ssum = (a + b) if order else (b + a)
+    tr.tok("call:__add__")
+    tb.tok("call:__add__")
+    ts = track(ssum, "call:__add__@new_signal")
+    handles = [("left operand" if order else "right operand", tr), ("right operand" if order else "left operand", tb),
+               ("sum", ts)]
+    desc = "s = %s" % ("a + b" if order else "b + a")
+    if rng.random() < 0.4:          # a sum of sums
+        c = S.FunctionSignal(a.times, rng.choice(E["funcs"]) if kind == "FunctionSignal" else (lambda t: 0 * np.asarray(t) + 2e-3),
+                             a.value_type)
+        tc = track(c, "call:__init__")
+        s2 = (ssum + c) if rng.random() < 0.5 else (c + ssum)
+        ts.tok("call:__add__")
+        tc.tok("call:__add__")
+        ts2 = track(s2, "call:__add__@new_signal")
+        handles += [("third operand", tc), ("sum of sums", ts2)]
+        desc += "; s2 = s + c"
+    if rng.random() < 0.5:
+        cp = ssum.copy()
+        ts.tok("call:copy")
+        handles.append(("copy of the sum", track(cp, "call:copy@new_signal")))
+        desc += "; copy"
+    if rng.random() < 0.5 and len(ssum.times) >= 8:
+        wt = ssum.with_times(ssum.times[2:-1].copy())
+        ts.tok("call:with_times")
+        handles.append(("re-gridded sum", track(wt, "call:with_times@new_signal")))
+        desc += "; with_times"
+    # function-backed + sampled: the result is a sampled signal that must not follow its operands either
+    vals = np.array([rng.randint(-8, 8) / 4.0 for _ in range(len(a.times))])
+    sampled = S.Signal(a.times, vals, a.value_type)
+    mixed = (a + sampled) if rng.random() < 0.5 else (sampled + a)
+    tr.tok("call:__add__")
+    tr.tok("r:values")
+    tmix = Tracked(mixed, "Signal")
+    ctx.hist.append("sum handles: %s; a + sampled" % desc)
+    # ---- read everything, build never-mutated twins
+    before = [rd(t) for _, t in handles]
+    mixed_before = np.array(mixed.values)
+    twins = [twin_signal(t.obj) for _, t in handles]
+    # ---- mutate one handle after the other; all OTHER handles must be unaffected
+    n_mut = rng.randint(1, 3)
+    for _ in range(n_mut):
+        mi = rng.randrange(len(handles))
+        mname, mt = handles[mi]
+        m = mt.obj
+        how = rng.choice(["filter", "filter", "buffers", "buffers", "shift", "imul"])
+        if how == "filter":
+            h, real = rng.choice(filters)
+            m.filter_frequencies(h, force_real=real)
+            mt.tok("call:filter_frequencies")
+        elif how == "buffers":
+            m.set_buffers(leading=rng.choice([1.0, 2.0, 5.0]) * unit, trailing=rng.choice([None, 3.0 * unit]),
+                          force=rng.random() < 0.3)
+            mt.tok("call:set_buffers")
+        elif how == "shift":
+            m.shift(rng.choice([1.0, -2.0]) * unit)
+            mt.tok("call:shift")
+        else:
+            m *= rng.choice([2.0, -0.5])
+            mt.tok("call:__imul__")
+        ctx.run.count("sum_handles_mutation_" + how)
+        ctx.hist.append("%s of the %s" % (how, mname))
+        with warnings.catch_warnings():
+            warnings.simplefilter("ignore")
+            for j, (name, t) in enumerate(handles):
+                if j == mi:
+                    continue
+                now = rd(t)
+                fresh = np.array(twins[j].values)
+                scale = max(1e-300, float(np.max(np.abs(before[j]))) if len(before[j]) else 0.0)
+                tol = 1e-12 * scale + 1e-13
+                if now.shape != before[j].shape or not np.all(np.abs(now - before[j]) <= tol):
+                    ctx.note("after %s on the %s, the %s reports other values than before (max |diff| %.3g, scale %.3g): "
+                             "they share mutable internals" % (how, mname, name, float(np.max(np.abs(now - before[j])))
+                                                               if now.shape == before[j].shape else -1, scale))
+                elif not np.all(np.abs(np.array(twin_signal(t.obj).values) - fresh) <= tol):
+                    ctx.note("after %s on the %s, a fresh copy of the %s evaluates differently from its never-mutated "
+                             "twin: its definition was changed through a shared list" % (how, mname, name))
+            if not np.array_equal(np.array(mixed.values), mixed_before):
+                ctx.note("after %s on the %s, the sampled sum a + sampled changed" % (how, mname))
+        # the mutated handle itself: refresh its reference values and twin
+        before[mi] = rd(mt)
+        twins[mi] = twin_signal(m)
+        check_signal(ctx, mt)
+    ctx.run.count("sum_handles")
+    nxt = rng.choice(handles)[1]
+    ctx.hist.append("(continue on the %s)" % [n for n, t in handles if t is nxt][0])
+    check_signal(ctx, nxt)
+    ctx.hist.append("read")
+    return nxt
+
+
 def signal_history(ctx, nsteps):
     E = env()
     np, S = E["np"], E["S"]
@@ -407,7 +548,7 @@ def signal_history(ctx, nsteps):
     for _ in range(nsteps):
         s = tr.obj
         op = rng.choice(["read", "read", "shift", "imul", "idiv", "filter", "buffers", "resample", "with_times",
-                         "add", "copy", "mul", "times_inplace", "respace", "add_sampled"]
+                         "add", "copy", "mul", "times_inplace", "respace", "add_sampled", "sum_handles", "sum_handles"]
                         + (["buffers", "buffers"] if nonbinary(unit) else []))
         ctx.run.count("sig_op_" + op)
         if op == "read":
@@ -444,6 +585,9 @@ def signal_history(ctx, nsteps):
                 ctx.hist.append("with_times <same length, spacing x%g> ; (continue on the result)" % k)
             check_signal(ctx, tr)
             ctx.hist.append("read")
+            continue
+        elif op == "sum_handles":
+            tr = sum_handles(ctx, tr, kind, filters, unit)
             continue
         elif op == "add_sampled":
             # function-backed + sampled / empty signal, both operand orders
